@@ -46,6 +46,7 @@ pub fn history(seed: u64, idx: u64) -> Case {
         let mut return_seq: HashMap<usize, u64> = HashMap::new();
         let mut dead: HashSet<usize> = HashSet::new();
         let mut idle: Vec<usize> = Vec::new();
+        let mut force_overlap = false;
         macro_rules! v {
             ($oracle:expr, $($arg:tt)*) => {
                 viol.push(Violation { prop: "C17", oracle: $oracle, msg: format!($($arg)*) })
@@ -57,7 +58,7 @@ pub fn history(seed: u64, idx: u64) -> Case {
             }
             let last = step == n_ops;
             let x = if last { 1000 } else { rng.below(100) };
-            let want_get = (x < 35 && held.len() < max_size) || (!last && held.is_empty() && idle.is_empty());
+            let want_get = (x < 35 && held.len() < max_size) || (!last && held.is_empty() && idle.is_empty()) || (force_overlap && !last);
             if want_get || last {
                 if last {
                     for (c, k) in held.drain(..) {
@@ -70,7 +71,8 @@ pub fn history(seed: u64, idx: u64) -> Case {
                 let mut probe: Vec<(Connection, usize)> = Vec::new();
                 // now and then two gets are in flight at once (their recycle checks overlap)
                 let mut prefetched: Vec<Result<Result<Connection, deadpool_redis::PoolError>, tokio::time::error::Elapsed>> = Vec::new();
-                if !last && max_size - held.len() >= 2 && rng.chance(1, 3) {
+                let forced = std::mem::take(&mut force_overlap);
+                if !last && max_size - held.len() >= 2 && (forced || rng.chance(1, 3)) {
                     let (a, b) = tokio::join!(tokio::time::timeout(Duration::from_secs(10), pool.get()), tokio::time::timeout(Duration::from_secs(10), pool.get()));
                     prefetched.push(a);
                     prefetched.push(b);
@@ -235,6 +237,10 @@ pub fn history(seed: u64, idx: u64) -> Case {
                     } else {
                         st.lock().unwrap().next_ping = Some(f);
                         log.push(format!("next PING on conn {} gets {:?}", k, f));
+                        if f == PingFault::Newest && idle.len() >= 2 && max_size - held.len() >= 2 {
+                            // the answer needs a second recycle in flight: two gets at once come next
+                            force_overlap = true;
+                        }
                     }
                     *counters.entry(format!("fault:{}", format!("{:?}", f).split('(').next().unwrap())).or_insert(0) += 1;
                     let _ = dead.insert(k);
